@@ -33,6 +33,11 @@ def cases(prop, shard, nshards, seed, tier, want_models=False):
                 continue
             if mine():
                 yield {"family": "hostile-" + hops[0]["op"], "file": fn, "ops": hops}
+    # crowded: the structure plus displaced copies (up to ~20 base centroids within 6 A, > 15 donor/acceptor atoms within 4 A)
+    for fn in ("tests/1ATO.pdb", "tests/1A1T_1_B.cif", "tests/1DFU_1_M-N.cif"):
+        for t in range(1 if tier == "quick" else 4):
+            if mine():
+                yield {"family": "hostile-displaced-copies", "file": fn, "ops": [{"op": "displaced-copies", "seed": f"{seed}:crowd:{fn}:{t}", "n": 3}]}
     if prop == "C03":
         # different nucleotides that share author chain, number and insertion code (labels differ)
         for fn in ("tests/4gqj-assembly1.cif", "tests/4WTI_1_T-P.cif", "tests/1DFU_1_M-N.cif", "tests/184D.cif", "tests/1JJP.cif"):
